@@ -357,6 +357,23 @@ class EscapeAnalysis:
             else:
                 out.add((self.exc_name(n.exc, rel), U(n)[:80]))
             return out
+        if isinstance(n, ast.Assign) and len(n.targets) == 1 and isinstance(n.targets[0], (ast.Tuple, ast.List)) \
+                and not any(isinstance(x, ast.Starred) for x in n.targets[0].elts):
+            # ``a, b = text.split(sep)`` (also sliced: ``[:2]``): the number of pieces depends on the data
+            v = n.value
+            want = len(n.targets[0].elts)
+            core = v.value if isinstance(v, ast.Subscript) and isinstance(v.slice, ast.Slice) else v
+            if isinstance(core, ast.Call) and isinstance(core.func, ast.Attribute) and core.func.attr in ("split", "rsplit", "splitlines") \
+                    and not self.safe_site(n, func, "unpack-split"):
+                exact = False
+                if isinstance(v, ast.Subscript):
+                    # a slice bounds the count from above only
+                    exact = False
+                elif core.func.attr in ("split", "rsplit") and len(core.args) == 2 and try_const(core.args[1]) == want - 1:
+                    exact = False  # maxsplit bounds it from above only as well
+                if not exact:
+                    out.add(("ValueError", f"{U(n)[:70]} (number of pieces not established)"))
+            return out
         if isinstance(n, ast.Subscript) and isinstance(n.ctx, ast.Load) and not isinstance(n.slice, ast.Slice):
             base = n.value
             if isinstance(base, ast.Call) and last_attr(base.func) in ("unpack", "split", "groups", "_DecodeVarint32", "as_integer_ratio"):
